@@ -1,5 +1,7 @@
 import Sm9.Proofs.MontBasic
 import Sm9.Proofs.MontMul
+import Sm9.Proofs.MontInvert
+import Sm9.Proofs.Conversions
 import Sm9.Proofs.Consts
 import Sm9.Proofs.FqField
 import Sm9.Model.Api
@@ -10,8 +12,11 @@ inputs to canonical outputs: add, sub, negate, double, Montgomery multiply, squa
 entering / leaving Montgomery form, and `set_bit` (after the D1 repair it re-enters
 Montgomery form through a reducing multiplication).  On canonical limbs the derived
 `PartialEq` (equality of raw limbs) is equality of values, because x ↦ x·R mod m is
-injective on [0, m).  Missing: `invert` (termination + canonicity) and `sum_of_products`
-at limb level; histories are decided by register-machine programs on the real crate.
+injective on [0, m).  `inverse` terminates (within the model's fuel) with a canonical result on
+every canonical non-zero input; every constructor (`new`, strict / reducing `from_slice`,
+`interpret`, `from_hash`, `random` for arbitrary RNG output, `set_bit` for every index) yields a
+canonical value.  Missing: `sum_of_products` at limb level (in progress, C12); histories are
+decided by register-machine programs on the real crate.
 -/
 set_option maxRecDepth 100000
 namespace Sm9.C07
@@ -43,6 +48,27 @@ theorem new_canon {P : MontParams} (hP : P.Ok) (x y : Nat) (h : Fp.new P x = som
   · rw [Option.some.injEq] at h; rw [← h]
     exact Nat.mod_lt _ (by have := hP.gt; rw [U256.W256_eq] at this; omega)
   · cases h
+theorem inverse_canon_terminates {P : MontParams} (hP : P.Ok) (hp : Nat.Prime P.modulus) (x : Nat)
+    (hx : Canon P.modulus x) (h0 : x ≠ 0) :
+    ∃ y, Fp.inverse P x = some (some y) ∧ Canon P.modulus y := by
+  obtain ⟨y, h1, h2, _⟩ := (Fp.inverse_refines hP hp x hx).2 h0
+  exact ⟨y, h1, h2⟩
+theorem div2_canon (b m : Nat) (hm : m < W256) (hm2 : W256 < 2 * m) (hodd : m % 2 = 1) (hb : Canon m b) :
+    Canon m (U256.div2 b m) := (U256.div2_refines b m hm hm2 hodd hb).1
+theorem new_mul_factor_canon {P : MontParams} (hP : P.Ok) (x : Nat) (hx : x < W256) :
+    Canon P.modulus (Fp.new_mul_factor P x) := (Fp.new_mul_factor_reduces hP x hx).1
+theorem interpret_canon {P : MontParams} (hP : P.Ok) (bs : List UInt8) (h : bs.length = 64) :
+    ∃ y, Fp.interpret P bs = .ok y ∧ Canon P.modulus y := by
+  obtain ⟨y, h1, h2, _⟩ := Fp.interpret_spec hP bs h
+  exact ⟨y, h1, h2⟩
+theorem set_bit_canon {P : MontParams} (hP : P.Ok) (x i : Nat) (v : Bool) (hx : Canon P.modulus x) :
+    Canon P.modulus (Fp.set_bit P x i v) := (Fp.set_bit_spec hP x i v hx).2
+theorem random_canon {P : MontParams} (hP : P.Ok) (draw : List Nat) : Canon P.modulus (Fp.random P draw) :=
+  (Fp.random_spec hP draw).2
+theorem from_hash_canon (ha : List UInt8) (h : ha.length ≤ 64) :
+    ∃ y, FrL.from_hash ha = .ok (some y) ∧ Canon Consts.FR y := by
+  obtain ⟨y, h1, h2, _⟩ := FrL.from_hash_spec ha h
+  exact ⟨y, h1, h2⟩
 /-- on canonical limbs, equal values (x·R mod m) force equal limbs: `==` on raw limbs is value equality -/
 theorem eq_iff_value {P : MontParams} (hP : P.Ok) {a b : Nat} (ha : Canon P.modulus a) (hb : Canon P.modulus b)
     (h : (a * W256) % P.modulus = (b * W256) % P.modulus) : a = b := Fp.eq_of_mul_W256 hP ha hb h
